@@ -37,6 +37,13 @@ func genDec(t *rapid.T) core.Dec {
 		return core.Dec{Coeff: "0", Neg: rapid.Bool().Draw(t, "neg"), Exp: int32(rapid.SampledFrom([]int{-2001, -2000, -1999, -8, -7, -6, -5, -1, 0, 1, 3}).Draw(t, "ze"))}
 	}
 	d := core.Dec{Coeff: gen.Digits(t, 45, "c"), Neg: rapid.Bool().Draw(t, "neg")}
+	if gen.Pick(t, 12, "long") == 0 {
+		// non-zero coefficients around the -2000 cut-off that the zero exception uses, so
+		// that the cut-off is seen to apply to zeros only
+		d.Coeff = gen.DigitsN(t, rapid.IntRange(1985, 2015).Draw(t, "ll"), gen.Pick(t, 10, "ls"), "lc")
+		d.Exp = int32(rapid.IntRange(-2025, -1975).Draw(t, "le"))
+		return d
+	}
 	nd := int64(len(d.Coeff))
 	switch gen.Pick(t, 4, "ek") {
 	case 0:
@@ -58,7 +65,11 @@ func genExponent(t *rapid.T) string {
 	var e string
 	switch gen.Pick(t, 6, "ek") {
 	case 0:
-		e = rapid.SampledFrom([]string{"99999", "100000", "100001", "99998", "2147483647", "2147483648", "4294967296", "99999999999999999999", "0", "00", "007"}).Draw(t, "ebig")
+		// package limits and the integer widths an exponent parser may overflow
+		e = rapid.SampledFrom([]string{"99999", "100000", "100001", "99998", "2147483647", "2147483648", "4294967295", "4294967296", "4294967301",
+			"9223372036854775807", "9223372036854775808", "18446744073709551615", "18446744073709551616", "18446744073709551621", "18446744073709451616",
+			"36893488147419103232", "36893488147419103237", "99999999999999999999", "340282366920938463463374607431768211456", "340282366920938463463374607431768211461",
+			"0", "00", "007", "000000000000000000000000000000005"}).Draw(t, "ebig")
 	case 1:
 		e = fmt.Sprint(rapid.IntRange(99990, 100010).Draw(t, "enear"))
 	default:
@@ -203,6 +214,9 @@ func check(c Case, st *core.Stats) error {
 		core.Guard(st, func() { got = x.String() })
 		want := ref.ToSci(c.X)
 		adj := int64(c.X.Exp) + int64(len(c.X.Coeff)) - 1
+		if len(c.X.Coeff) > 1900 {
+			st.Class("long-coefficient-around-exponent-minus-2000")
+		}
 		if c.X.Form == 0 && adj >= -8 && adj <= -5 {
 			st.NonTrivial("switch-over")
 		} else if c.X.IsZero() {
